@@ -23,8 +23,12 @@ def main():
     ap.add_argument("--tier", default=os.environ.get("VERIF_TIER", "quick"), choices=["quick", "thorough"])
     ap.add_argument("--replay", default=None)
     a = ap.parse_args()
+    if os.environ.get("PYTHONHASHSEED") != "0":
+        # the compiler iterates over sets of scope names: its output can depend on string hashing.  Every process of a
+        # check (this one, the compile workers forked from it, helper interpreters) runs with the same fixed hashing.
+        env = dict(os.environ, PYTHONHASHSEED="0")
+        os.execve(sys.executable, [sys.executable, os.path.abspath(__file__)] + sys.argv[1:], env)
     os.environ[common.GUARD] = "1"
-    os.environ.setdefault("PYTHONHASHSEED", "0")
     sys.path.insert(0, os.path.join(common.REPO, "src"))
     # helper processes started by the code under test (constexpr evaluation) must import the same tree
     os.environ["PYTHONPATH"] = os.path.join(common.REPO, "src") + (os.pathsep + os.environ["PYTHONPATH"] if os.environ.get("PYTHONPATH") else "")
